@@ -5,10 +5,13 @@ Open Scope Z_scope.
 
 (* timed trace of one client connection: ticks between hook timestamps, resets at deadline.reset;
    expect_fired: the trace ends at the reader error caused by the deadline (silent peer) / at the end of a healthy run *)
-Record kcase := { kc_T : Z; kc_events : list kev; kc_expect_fired : bool; kc_aevents : list aev }.
+Record kcase := { kc_T : Z; kc_events : list kev; kc_expect_fired : bool; kc_aevents : list aev;
+                  kc_armed : list Z (* the timeout each deadline.reset of the connection armed *) }.
 
-(* 0 ok; 1 the deadline model disagrees with what was observed; 2 a deadline reset without peer evidence (index) *)
+(* 0 ok; 1 the deadline model disagrees with what was observed; 2 a deadline reset without peer evidence (index);
+   3 the deadline was armed with something else than the configured timeout (the model's T) *)
 Definition kcase_diag (c : kcase) : N * N :=
+  if negb (forallb (Z.eqb (kc_T c)) (kc_armed c)) then (3%N, 0%N) else
   match arun_diag 0 (kc_aevents c) 0 with
   | Some i => (2%N, i)
   | None =>
